@@ -198,6 +198,34 @@ Definition correspondence (c : fcase) : list nat :=
   end.
 
 (* ---- the property on the implementation's answers, against what was written ------------------------ *)
+(* ---- NONMEM's (Fortran 1PE12.5) form of a number with a three digit exponent: the E is dropped, 1.00000-100.
+   The specification side knows which number that text denotes; pandas does not (finding C20-FORTRAN-EXP3). ---- *)
+Definition fortran_short_value (t : text) : option Q :=
+  let '(neg, r) := split_sign t in
+  let (ip, r1) := span is_digit r in
+  match ip, r1 with
+  | _ :: _, c :: r2 =>
+      if N.eqb c c_dot then
+        let (fp, r3) := span is_digit r2 in
+        match r3 with
+        | s :: ed =>
+            if (N.eqb s c_minus || N.eqb s c_plus) && forallb is_digit ed && Nat.leb 3 (length ed) then
+              let e := if N.eqb s c_minus then Z.opp (Zdigits ed) else Zdigits ed in
+              let v := Qred (inject_Z (Zdigits (ip ++ fp)) * pow10 (e - Z.of_nat (length fp))) in
+              Some (if neg then Qopp v else v)
+            else None
+        | [] => None
+        end
+      else None
+  | _, _ => None
+  end.
+
+Definition wcell_o (x : wnum) : cell :=
+  match x with
+  | WStr t => match fortran_short_value t with Some q => CNum q | None => CStr t end
+  | _ => wcell x
+  end.
+
 Definition wtitle_matches (w : option wtitle) (o : option title) : bool :=
   match w, o with
   | None, None => true
@@ -217,7 +245,7 @@ Definition label_as_read (sfx : suffix) (l : text) : text :=
   match sfx with SOther => l | _ => sub_obj l end.
 
 Definition rows_as_written (w : wtable) (o : otable) : bool :=
-  list_eqb (fun wr orow => list_eqb cell_match (map wcell wr) (snd orow)) (w_rows w) (f_rows (o_frame o)) &&
+  list_eqb (fun wr orow => list_eqb cell_match (map wcell_o wr) (snd orow)) (w_rows w) (f_rows (o_frame o)) &&
   list_eqb Nat.eqb (seq 0 (length (w_rows w))) (map fst (f_rows (o_frame o))).
 
 (* the written row with a given ITERATION code, as (label as pharmpy names it, value) without ITERATION/OBJ *)
@@ -228,11 +256,11 @@ Definition wrows_with (w : wtable) (z : Z) : list (list wnum) :=
 (* the written parameter columns in pharmpy's order (THETA, OMEGA, SIGMA; THETAn -> THETA(n)) *)
 Definition wnamed (w : wtable) (r : list wnum) : list (text * cell) :=
   let labs := map (label_as_read SExt) (w_labels w) in
-  let named := combine labs (map wcell r) in
+  let named := combine labs (map wcell_o r) in
   flat_map (fun l => match find (fun nc => text_eqb (fst nc) l) named with
                      | Some nc => [(rename_theta l, snd nc)] | None => [] end) (param_labels labs).
 Definition wobj (w : wtable) (r : list wnum) : cell :=
-  match find (fun nc => text_eqb (fst nc) s_OBJ) (combine (map (label_as_read SExt) (w_labels w)) (map wcell r)) with
+  match find (fun nc => text_eqb (fst nc) s_OBJ) (combine (map (label_as_read SExt) (w_labels w)) (map wcell_o r)) with
   | Some nc => snd nc | None => CNaN end.
 
 Definition wnonneg_rows (w : wtable) : list (list wnum) :=
@@ -288,7 +316,7 @@ Definition wmatrix (w : wtable) : matrix :=
   let colidx := map (fun l => index_of l (w_labels w)) labs in
   let vals := map (fun l => match index_of l names with
                             | Some i => let r := nth i (w_rows w) [] in
-                                        map (fun j => match j with Some k => wcell (nth k r (WStr [])) | None => CNaN end) colidx
+                                        map (fun j => match j with Some k => wcell_o (nth k r (WStr [])) | None => CNaN end) colidx
                             | None => map (fun _ => CNaN) colidx end) labs in
   let keep := map (fun r => existsb cell_nonzero r) vals in
   mkMatrix (keep_mask keep (map rename_theta labs)) (keep_mask keep (map rename_theta labs))
@@ -301,7 +329,7 @@ Definition wsymmetric (w : wtable) : bool :=
 
 (* phi: ids, iofv, etas by column, etcs symmetric with the written entries; all-zero individuals removed *)
 Definition wphi_rows (w : wtable) : list (list cell) :=
-  filter (fun r => existsb cell_any (skipn 2 r)) (map (map wcell) (w_rows w)).
+  filter (fun r => existsb cell_any (skipn 2 r)) (map (map wcell_o) (w_rows w)).
 Definition wcol (w : wtable) (r : list cell) (l : text) : cell :=
   match index_of l (w_labels w) with Some j => nth j r CNaN | None => CNaN end.
 
@@ -379,6 +407,10 @@ Definition guards (c : fcase) : list nat :=
   | Some ws =>
       (match fc_suffix c with SExt => flat_map guard_ext_table ws | _ => [] end) ++
       tag (forallb w_showlabels ws) 203 ++
+      (* 206: a number in Fortran's E-less three digit exponent form occurs *)
+      tag (negb (existsb (fun w => existsb (existsb (fun x => match x with
+                                                              | WStr t => match fortran_short_value t with Some _ => true | None => false end
+                                                              | _ => false end)) (w_rows w)) ws)) 206 ++
       (* 210: the written file lies in the domain of the theorems parse_render / parse_render_notitle *)
       tag (negb (if fc_notitle c
                  then match ws with [t] => wtable_notitle_ok (fc_nolabel c) t | _ => false end
@@ -582,7 +614,7 @@ Definition wmatrix_named (c : rcase) (w : wtable) (diag_one : bool) : matrix :=
 
 Definition tab_column (t : wtab) (name : text) : option (list cell) :=
   match index_of name (wtb_cols t) with
-  | Some j => Some (map (fun r => wcell (nth j r (WStr []))) (w_rows (wtb_table t)))
+  | Some j => Some (map (fun r => wcell_o (nth j r (WStr []))) (w_rows (wtb_table t)))
   | None => None
   end.
 
@@ -710,6 +742,9 @@ Definition rguards_json (c : rcase) : list nat :=
 
 Definition rguards (c : rcase) : list nat :=
   rguards_json c ++
+  tag (negb (existsb (fun w => existsb (existsb (fun x => match x with
+                                                          | WStr t => match fortran_short_value t with Some _ => true | None => false end
+                                                          | _ => false end)) (w_rows w)) (rc_wext c))) 206 ++
   (match last_opt (est_wtables (rc_wext c)) with Some w => guard_ext_table w | None => [] end) ++
   (match rc_wtab c with Some t => tag (w_showlabels (wtb_table t)) 203 | None => [] end).
 
